@@ -174,10 +174,39 @@ def run(F, R, ctx):
     if not hv:
         raise CheckError("anchor lost: RecursiveEqualityHandler::visit")
     fn = hv[0]
-    sv_calls = fn.call_blocks(r"RecursiveEqualityHandler\}::should_visit$")
-    R.inst("C18.c", "RecursiveEqualityHandler::visit consults the visited set", len(sv_calls) >= 14,
-           "RecursiveEqualityHandler::visit calls should_visit only %d times (one pair per mutable/shared container kind "
-           "expected): equality on cyclic structures may not terminate" % len(sv_calls), fn.loc(), sample={"calls": len(sv_calls)})
+    # per arm: a kind whose payload is a mutable cell that can hold a SteelVal (HeapRef<..> / Gc<RwLock<..>>) is what closes
+    # a cycle; its (kind, kind) arm must consult the visited set on every path before it descends into the contents
+    from . import c11
+    vfn, tup, top, pair_arm, hdr = c11._visit_tree(F)
+    inserters = [n for n, f in F.fns.items() if "{impl RecursiveEqualityHandler" in n and f is not vfn and
+                 any(e[1] == "RecursiveEqualityHandler" and e[2] == "visited" for _, _, e in f.events("fld"))]
+    if not inserters:
+        raise CheckError("anchor lost: no RecursiveEqualityHandler method touches .visited")
+    fall = pair_arm("Void", "BoolV")
+    cells = []
+    for v in F.adt("SteelVal")["variants"]:
+        for f in v["fields"]:
+            if re.search(r"HeapRef<|RwLock<", f["ty"]) and ("SteelVal" in f["ty"]):
+                cells.append(v["name"])
+    R.floor("C18.c", "mutable cell kinds of SteelVal", len(cells), 3)
+    DESC = r"EqualityVisitor as BreadthFirstSearchSteelValVisitor>::(visit_\w+|push_back)$"
+    for k in sorted(set(cells)):
+        e = pair_arm(k, k)
+        if e == fall:
+            R.inst("C18.c", "equality arm of mutable cell kind %s guards its descent" % k, True,
+                   sample={"note": "no (kind,kind) arm: never descends"}, nontrivial=False)
+            continue
+        region = vfn.reachable_from([e], avoid=hdr)
+        desc = [b for b in region if vfn.blocks[b]["k"] == "call" and re.search(DESC, lib.short_name(vfn.blocks[b]["callee"]))]
+        guards = [b for b in region if vfn.blocks[b]["k"] == "call" and vfn.blocks[b]["callee"] in inserters]
+        ok = True
+        if desc:
+            ok, _ = vfn.every_path_passes_from([e], desc, guards) if guards else (False, None)
+        R.inst("C18.c", "equality arm of mutable cell kind %s guards its descent" % k, ok,
+               "the (%s, %s) arm of RecursiveEqualityHandler::visit descends into the cell's contents without consulting "
+               "the visited set: a cycle that runs only through cells of this kind (a box holding itself, two boxes "
+               "holding each other) makes equal? loop forever" % (k, k), vfn.loc(vfn.blocks[e].get("line")),
+               sample={"descend_calls": len(desc), "visited_tests": len(guards)})
     depth = fn.call_blocks(r"rvals::cycles::eq_depth$") or [i for i, b in lib.family_calls(F, fn) if re.search(r"eq_depth$", b["callee"])]
     R.inst("C18.c", "RecursiveEqualityHandler::visit bounds its recursion depth", bool(depth),
            "RecursiveEqualityHandler::visit no longer tests eq_depth()", fn.loc(), sample=True)
